@@ -63,7 +63,10 @@ class Packet(Frame):
         self.error_text: str = kwargs.get("err_msg", "")
         self.raw_frame: str = kwargs.get("raw_frame", "")
 
-        self._lifespan: bool | td = pkt_lifespan(self) or False
+        try:  # pkt_lifespan() can invoke self._has_array, which has bare asserts
+            self._lifespan: bool | td = pkt_lifespan(self) or False
+        except AssertionError as err:
+            raise exc.PacketInvalid(f"Bad packet: {err}") from err
 
         self._validate(strict_checking=False)
 
